@@ -4,6 +4,7 @@ exact sequence of getstate / seed / sample / setstate calls of each run; (S) the
 list vs frequency dictionary, repeated calls (after unrelated calls in the same process), repeated examples,
 and with a seed: reproducibility (small inputs with sampling forced, and inputs larger than the sampling
 thresholds) and the global generator left exactly as found."""
+import collections
 import random
 import warnings
 
@@ -96,6 +97,30 @@ def run(ctx):
         if seed is not None or not sampling:
             if again != base:
                 ctx.fail(case, 'repeating the call gives %r, first call gave %r' % (again, base))
+        # ---- the documented two-step use: construct without extracting, let the program use the generator,
+        #      then extract (twice): same expressions, and a seeded extract() leaves the generator as it found it
+        if it % 3 == 0:
+            import tdda.rexpy.rexpy as rx
+            try:
+                import contextlib, io
+                with contextlib.redirect_stdout(io.StringIO()):
+                    x2 = rx.Extractor(list(arg), extract=False, size=rx.Size(**size) if size else None, seed=seed, **opts)
+                    for rep in (1, 2):
+                        random.random()
+                        s_before = random.getstate()
+                        x2.extract()
+                        s_after = random.getstate()
+                        got = rexes_of(x2)
+                        ctx.bump('two_step_extracts')
+                        if seed is not None and s_before != s_after:
+                            ctx.fail(dict(case, two_step=rep), 'Extractor(extract=False, seed=%r) then the program draws a random '
+                                     'number then x.extract() (call %d): the global generator state differs after the '
+                                     'call from before it' % (seed, rep))
+                        if (seed is not None or not sampling) and got != base:
+                            ctx.fail(dict(case, two_step=rep), 'Extractor(extract=False) + extract() (call %d) gives %r, '
+                                     'the one-step call gave %r' % (rep, got, base))
+            except Exception as e:
+                ctx.fail(case, 'two-step extraction raised %s: %s' % (type(e).__name__, str(e)[:200]))
         if sampling:
             continue            # order / multiplicity comparisons below are for unsampled sizes
         # ---- reordering
@@ -114,6 +139,18 @@ def run(ctx):
         got, _, _ = run_plain(cnt, opts, size, seed)
         if got != base:
             ctx.fail(dict(case, as_dict=repr(cnt)[:2000]), 'a frequency dictionary gives %r, the list gave %r' % (got, base))
+        # ---- ... also when it lists further strings with count 0 (a Counter after subtract()): supplied zero times
+        cntz = collections.Counter(cnt)
+        for _ in range(rng.choice([1, 2, 3])):
+            z = R.gen_string(rng)
+            if z is not None and z not in cntz:
+                cntz[z] = 0
+        zform = rng.choice([dict, collections.Counter])
+        got, _, _ = run_plain(zform(cntz), opts, size, seed)
+        ctx.bump('zero_count_entries.%d' % (len(cntz) - len(cnt)))
+        if got != base:
+            ctx.fail(dict(case, as_dict=repr(dict(cntz))[:2000]),
+                     'a frequency dictionary with zero-count entries gives %r, the list gave %r' % (got, base))
         # ---- repeating an example changes nothing
         if arg:
             more = list(arg) + [rng.choice(arg)] * rng.choice([1, 2, 7])
